@@ -2,10 +2,44 @@
 from .assign import assign_check
 
 
+def _nested(chk):
+    """nested snapshot() calls (call sites of their own inside an outer == snapshot)"""
+    from . import assign
+    from .. import assign_replay, pool, tlc
+    from ..checklib import MachineryError, overlap_kind
+    ts_mc, ts, st, keep = assign.SIZES[chk.tier]["inner"]
+    res = tlc.run_tlc("MC_Assign", "Assign_inner.cfg", workers=16, timeout=3000,
+                      extra_files={"run.cfg": assign._cfg("inner", ["Emit"], {"Mode": "emit", "TStride": ts, "Stride": st, "Offset": chk.seed % 7})})
+    chk.add_tlc(res, "emit Assign_inner (nested snapshot calls)")
+    try:
+        cases = [c for c in assign_replay.load_cases(res.out_dir, seed=chk.seed, keep_every=1) if c["A"] == ["fix", "update"]]
+    finally:
+        tlc.cleanup(res)
+    by_id = {c["id"]: c for c in cases}
+    errors = 0
+    for out in pool.parallel_map(assign_replay._worker_nested, [(c, chk.seed) for c in pool.chunks(cases, 30)]):
+        for r in out:
+            if "error" in r:
+                errors += 1
+                print("driver error:", r["error"])
+                continue
+            chk.count(1, "nested|" + r["id"])
+            chk.validated(1)
+            for m in r["mism"]:
+                det = m["detail"]
+                chk.mismatch(m["clause"], {"clause": m["clause"], "shape": "inner", "error": det[0] if isinstance(det, list) and det else None,
+                                           "overlap": overlap_kind(det), "nested": True},
+                             {"kind": "assign-nested", "case": by_id[r["id"]], "seed": chk.seed, "mismatch": m,
+                              "module": r["text"], "module_after": r["new"]}, props=m["props"])
+    if errors:
+        raise MachineryError("%d replay jobs crashed" % errors)
+
+
 def run():
     chk = assign_check("C02")
     if isinstance(chk, int):
         return chk
+    _nested(chk)
     chk.assumptions += ["previous text: list/tuple/dict displays, nested lists, dataclass/attrs/namedtuple/pydantic "
                         "calls with positional and keyword arguments, hand-written leaves, Is(), f-strings, starred "
                         "containers, hand-written container expressions; one-line and multi-line layouts",
@@ -15,4 +49,5 @@ def run():
         rule="TLC checks ManagedEq(Assign(term, value, {create,fix}), value) for every (term, value) of four bounded "
              "shape universes; emitted cases are executed (assert value == snapshot(term)) and the rewritten argument is "
              "abstracted back: every managed part must equal the value, and the test must pass with inline-snapshot "
-             "disabled iff no user-controlled part disagrees; non-trivial = at least one pending category")
+             "disabled iff no user-controlled part disagrees; nested snapshot() calls: after one run with create and "
+             "fix the module (with a later empty snapshot in the same test) passes when disabled; non-trivial = at least one pending category")
